@@ -58,18 +58,27 @@ class Driver:
                                       {"weights": tuple(float(x) for x in w)})
         return self.fitclasses[w]
 
-    def new_ind(self, w):
+    def new_ind(self, w, use_creator=False):
         w = tuple(w)
-        if w not in self.indclasses:
-            F = self.fitcls(w)
+        key = (w, use_creator)
+        if key not in self.indclasses:
+            if use_creator:
+                # the usual way DEAP users build individuals: creator.create(...)
+                from deap import creator
+                k = len(self.indclasses)
+                creator.create("FitC08c_%d" % k, self.base.Fitness, weights=tuple(float(x) for x in w))
+                creator.create("IndC08c_%d" % k, list, fitness=getattr(creator, "FitC08c_%d" % k))
+                self.indclasses[key] = getattr(creator, "IndC08c_%d" % k)
+            else:
+                F = self.fitcls(w)
 
-            class Ind(list):
-                def __init__(self, *a):
-                    list.__init__(self, *a)
-                    self.fitness = F()
-            Ind.__name__ = Ind.__qualname__ = "IndC08_%d" % len(self.indclasses)
-            self.indclasses[w] = Ind
-        return self.indclasses[w]()
+                class Ind(list):
+                    def __init__(self, *a):
+                        list.__init__(self, *a)
+                        self.fitness = F()
+                Ind.__name__ = Ind.__qualname__ = "IndC08_%d" % len(self.indclasses)
+                self.indclasses[key] = Ind
+        return self.indclasses[key]()
 
     @staticmethod
     def to_int(x):
@@ -94,7 +103,7 @@ class Driver:
             its.append((c, [int(g) for g in it], [self.to_int(v) for v in it.fitness.wvalues]))
         return ks, its
 
-    def drive(self, kind, m, simk, weights, universe, script, group):
+    def drive(self, kind, m, simk, weights, universe, script, group, use_creator=False):
         """kind: 'hof' | 'pf'; universe: list of (geno, values); script: list of ops
         ('update', [(slot, content)...]) | ('insert', (slot, content)) | ('remove', i) | ('clear',).
         Returns (term, case)."""
@@ -106,7 +115,7 @@ class Driver:
             arch = tools.ParetoFront() if simf is None else tools.ParetoFront(similar=simf)
         nslots = 1 + max([s for o in script if o[0] == "update" for (s, _) in o[1]] +
                          [o[1][0] for o in script if o[0] == "insert"] + [0])
-        pool = [self.new_ind(weights) for _ in range(nslots)]
+        pool = [self.new_ind(weights, use_creator) for _ in range(nslots)]
         pool_ids = {id(p): k for k, p in enumerate(pool)}
         pool_fit_ids = {id(p.fitness) for p in pool}
         idmap, alive = {}, []
@@ -118,7 +127,8 @@ class Driver:
         event = 0
         garbage = 0
         case = {"kind": kind, "maxsize": m, "similar": simk, "weights": list(weights),
-                "universe": [[list(g), list(v)] for g, v in universe], "script": [list(o) for o in script], "group": group}
+                "universe": [[list(g), list(v)] for g, v in universe], "script": [list(o) for o in script], "group": group,
+                "creator_classes": bool(use_creator)}
         viol = []
 
         def set_content(slot, ci):
@@ -196,6 +206,12 @@ class Driver:
                 after = self.read(arch, pool_ids, idmap, alive)
                 fit_alias = [k for k, it in enumerate(arch.items) if id(it.fitness) in pool_fit_ids]
                 key_alias = [k for k, kk in enumerate(arch.keys) if id(kk) in pool_fit_ids]
+                # the public list-like interface shows the same members
+                n = len(arch)
+                iface_ok = (n == len(arch.items) and [id(x) for x in arch] == [id(x) for x in arch.items]
+                            and [id(arch[k]) for k in range(n)] == [id(x) for x in arch.items]
+                            and [id(x) for x in reversed(arch)] == [id(x) for x in reversed(arch.items)]
+                            and (n == 0 or arch[-1] is arch.items[-1]))
             except Exception as e:          # noqa  (e.g. archive left holding invalid fitnesses)
                 viol.append(("archive unreadable after the operation: %s" % type(e).__name__, None))
                 obs_terms.append("None")
@@ -204,6 +220,8 @@ class Driver:
             obs_terms.append("(Some (%s, %s))" % (clist([czl(k) for k in ks]), clist([cind(*t) for t in its])))
             obs_log.append([ks, its])
             # ---------------- oracle: the property statement on the implementation ----------------
+            if not iface_ok:
+                viol.append(("len / iteration / indexing / reversed disagree with the item list", its))
             if after != before:
                 viol.append(("archive changed when the submitted individuals were modified in place", [before, after]))
             if any(c < 0 for (c, _, _) in its) or fit_alias or key_alias:
@@ -401,8 +419,7 @@ def main(run):
                 script.append(("update", [(rng.randrange(nslots), rng.randrange(nuni)) for _ in range(n)]))
         return script
 
-    nrand = run.scale(1200, 30000)
-    for it in range(nrand):
+    def rand_case():
         kind = "hof" if rng.random() < 0.5 else "pf"
         nobj = rng.choice([1, 2, 2, 3, 4])
         weights = tuple(rng.choice([1, -1]) * rng.choice([1, 1, 2]) for _ in range(nobj))
@@ -412,8 +429,24 @@ def main(run):
         m = rng.choice([1, 1, 2, 2, 3, 3, 4, 5, 6])
         nslots = rng.randint(1, 5)
         script = rand_script(len(uni), nslots, rng.randint(1, 14), 7, api=False)
-        term, case = D.drive(kind, m, simk, weights, uni, script, "rand")
+        return kind, m, simk, weights, uni, script
+
+    nrand = run.scale(1200, 30000)
+    for it in range(nrand):
+        kind, m, simk, weights, uni, script = rand_case()
+        term, case = D.drive(kind, m, simk, weights, uni, script, "rand", use_creator=rng.random() < 0.3)
         add("rand", term, case)
+
+    def search(run_):
+        """Extra counterexample search on the implementation alone (only when something broke)."""
+        import time
+        t_end = time.time() + run_.scale(60, 600)
+        while time.time() < t_end and not run_.oracle_viol:
+            kind, m, simk, weights, uni, script = rand_case()
+            if simk not in EQUIV:
+                simk = "SimEq"
+            D.drive(kind, m, simk, weights, uni, script + rand_script(len(uni), 5, rng.randint(1, 20), 9, api=False), "search")
+    run.search_fn = search
 
     # planted: an antichain is shown first, then individuals dominating several members at once
     for it in range(run.scale(200, 4000)):
@@ -435,9 +468,9 @@ def main(run):
             uni.append(([100 + j], tuple(v)))
         order = list(range(k))
         rng.shuffle(order)
-        script = [("update", [(u % 3, u) for u in order[:rng.randint(1, k)]])]
+        script = [("update", [(j, u) for j, u in enumerate(order[:rng.randint(1, k)])])]
         for _ in range(rng.randint(1, 4)):
-            script.append(("update", [(rng.randrange(3), rng.randrange(len(uni))) for _ in range(rng.randint(0, 4))]))
+            script.append(("update", [(rng.randrange(5), rng.randrange(len(uni))) for _ in range(rng.randint(0, 4))]))
         kind = "pf" if rng.random() < 0.7 else "hof"
         term, case = D.drive(kind, rng.randint(1, 4), "SimEq", weights, uni, script, "plant")
         add("plant", term, case)
